@@ -200,7 +200,9 @@ pub fn run(data: &[u8], ctx: &mut Ctx) -> Outcome {
     {
         let els = m.elements();
         let pick = els[src.below(els.len())];
-        if !pick.is_obscured() && pick.digest() != m.digest() {
+        // (skipped when an already obscured element shares the digest: the walk below could not tell the
+        // element made by this action from the one that was there before)
+        if !pick.is_obscured() && pick.digest() != m.digest() && !els.iter().any(|x| x.is_obscured() && x.digest() == pick.digest()) {
             let pd = pick.digest();
             let t: std::collections::BTreeSet<crate::model::D32> = [pd].into_iter().collect();
             let r = nopanic!(ctx, e.elide_removing_set_with_action(&bridge::to_hashset(&t), &ObscureAction::Compress), "inner", "C13/inner");
@@ -213,6 +215,15 @@ pub fn run(data: &[u8], ctx: &mut Ctx) -> Outcome {
                 None
             };
             r.walk(false, &visitor);
+            let left = std::cell::Cell::new(0usize);
+            let visitor2 = |env: Envelope, _l: usize, _e: EdgeType, _p: Option<()>| -> Option<()> {
+                if !env.is_compressed() && d32(&env.digest()) == pd {
+                    left.set(left.get() + 1);
+                }
+                None
+            };
+            r.walk(false, &visitor2);
+            check!(ctx, found.borrow().is_some() && left.get() == 0, "inner", "C13/inner/not-compressed", "the Compress action on the inner element {} ({:?}) left {} uncompressed element(s) with its digest and {} compressed one: {}", pick.show(), pick.kind(), left.get(), if found.borrow().is_some() { "a" } else { "no" }, r.format_flat());
             if let Some(c_el) = found.into_inner() {
                 let u = nopanic!(ctx, c_el.uncompress(), "inner", "C13/inner");
                 let u = tryp!(ctx, u.map_err(|x| format!("an element compressed by the Compress action does not uncompress: {}", x)), "inner", "C13/inner/uncompress");
